@@ -182,16 +182,21 @@ def namesTG : List String → List (Tok × List Char)
   | [a] => [(.name a.toList, [])]
   | a :: b :: r => (.name a.toList, []) :: (.comma, [' ']) :: namesTG (b :: r)
 
-def paramsTG (ns : List String) : List (Tok × List Char) := (.lpar, []) :: (namesTG ns ++ [(.rpar, ['\n'])])
+/-- `(a, b)` followed by the gap `e` -/
+def paramsTG (ns : List String) (e : List Char) : List (Tok × List Char) := (.lpar, []) :: (namesTG ns ++ [(.rpar, e)])
 
 def kwInput : List Char := ['I', 'N', 'P', 'U', 'T']
 
-/-- canonical layout of one statement: `INPUT(a, b)⏎` / `z = AND(a, b)⏎` -/
-def stmtTG : BStmt → List (Tok × List Char)
-  | .intf ns => (.name kwInput, []) :: paramsTG ns
-  | .gate n k d => (.name n.toList, [' ']) :: (.eq, [' ']) :: (.name k.toList, []) :: paramsTG d
+/-- canonical layout of one statement, followed by the gap `e`: `INPUT(a, b)` / `z = AND(a, b)` -/
+def stmtTG (e : List Char) : BStmt → List (Tok × List Char)
+  | .intf ns => (.name kwInput, []) :: paramsTG ns e
+  | .gate n k d => (.name n.toList, [' ']) :: (.eq, [' ']) :: (.name k.toList, []) :: paramsTG d e
 
-def benchTG (stmts : List BStmt) : List (Tok × List Char) := stmts.flatMap stmtTG
+/-- one statement per line -/
+def benchTG (stmts : List BStmt) : List (Tok × List Char) := stmts.flatMap (stmtTG ['\n'])
+
+/-- statements in canonical form with an arbitrary gap behind each (blank lines, comment lines, nothing at all) -/
+def benchTGWith (sg : List (BStmt × List Char)) : List (Tok × List Char) := sg.flatMap fun p => stmtTG p.2 p.1
 
 /-- the token stream of a statement list (what every layout of it must lex to) -/
 def benchToks (stmts : List BStmt) : List Tok := (benchTG stmts).map (·.1)
